@@ -46,6 +46,7 @@ CONSTANTS N0,        \* length of the initial vector
           EmitAt,    \* 0, or (simulation) print only histories of exactly this length
           Ops,       \* enabled operations
           WMax,      \* operand vectors of arithmetic have at most WMax non-zero entries
+          Cols,      \* > 0: the vector is the row-major storage of a matrix with Cols columns (views: "vwalk")
           SwapBug, StaleBug, SliceBug
 
 Val == {-1, 0, 1}
@@ -115,7 +116,7 @@ Record(e) ==
   /\ hist' = Append(hist, [e EXCEPT !.c = [oo \in Objs |-> SeqOf(content'[oo], n'[oo])],
                                     !.n = [oo \in Objs |-> n'[oo]]])
   /\ (Emit /\ (EmitAt = 0 \/ Len(hist') = EmitAt) =>
-        PrintT(ToJson([h |-> hist', n0 |-> N0, its |-> [j \in Iters |-> ItObs(j)],
+        PrintT(ToJson([h |-> hist', n0 |-> N0, cols |-> Cols, its |-> [j \in Iters |-> ItObs(j)],
                        wk |-> [oo \in Objs |-> IF n'[oo] >= 0 THEN CWalk(content'[oo]) ELSE <<>>]])))
 
 (* -------------------------------------------------------------- Init *)
@@ -353,6 +354,58 @@ WalkAll(o) ==
        /\ ok' = (wk.seq = CWalk(content[o]))
   /\ UNCHANGED <<cit, mit>>
   /\ Record([Ev("walk", o) EXCEPT !.r = CWalk(content[o])])
+(* a complete loop over an iterator of the matrix VIEW m.Slice(r0, r1, c0, c1), started with          *)
+(* IteratorFrom(fi, fj): the vector iterator starts at the storage key of the view's cell, every step  *)
+(* is a vector-iterator step (with skip()), entries outside the view's columns are passed over         *)
+(* (clip), the loop ends at the first entry below the view's last row.                                 *)
+RECURSIVE VWalk(_, _, _, _, _, _, _, _)
+VWalk(vs, ix, p, acc, r0, r1, c0, c1) ==
+  LET s == Skip(vs, ix, NoSnap, p) IN
+  IF s.pos = Done \/ (s.pos \div Cols) >= r1 THEN [vals |-> s.vals, index |-> s.index, seq |-> acc]
+  ELSE LET j == s.pos % Cols IN
+       VWalk(s.vals, s.index, MinGT(s.index, s.pos),
+             IF j >= c0 /\ j < c1 THEN Append(acc, <<(s.pos \div Cols) - r0, j - c0, s.vals[s.pos]>>) ELSE acc,
+             r0, r1, c0, c1)
+ViewWalk(o, r0, r1, c0, c1, fi, fj) ==
+  /\ "vwalk" \in Ops /\ Cols > 0 /\ Alive(o) /\ n[o] > 0 /\ n[o] % Cols = 0
+  /\ r0 < r1 /\ r1 <= (n[o] \div Cols) /\ c0 < c1 /\ c1 <= Cols /\ fi < r1 - r0 /\ fj < c1 - c0
+  /\ LET wk == VWalk(vals[o], index[o], MinGE(index[o], (r0 + fi) * Cols + c0 + fj), <<>>, r0, r1, c0, c1)
+         exp == CViewWalk(content[o], Cols, r0, r1, c0, c1, fi, fj)
+     IN /\ ObsStep(o, wk.vals, wk.index, Prune(sh, o, DOMAIN wk.vals))
+        /\ ok' = (wk.seq = exp)
+        /\ UNCHANGED <<cit, mit>>
+        /\ Record([Ev("vwalk", o) EXCEPT !.i = r0, !.k = r1, !.p = <<c0, c1, fi, fj>>, !.r = exp])
+
+(* w := a fresh zero vector of length m as vector 2 (it gets its own history before it is appended) *)
+New2(m) ==
+  /\ "new2" \in Ops /\ MaxObj = 2 /\ Alive(1) /\ n[1] + m <= MaxN
+  /\ n' = [n EXCEPT ![2] = m]
+  /\ content' = [content EXCEPT ![2] = [i \in Idx(m) |-> 0]]
+  /\ must' = {} /\ taint' = [o \in Objs |-> {}]
+  /\ vals' = [vals EXCEPT ![2] = <<>>]
+  /\ index' = [index EXCEPT ![2] = {}]
+  /\ sh' = {}
+  /\ cit' = KillIters(cit, {2}) /\ mit' = KillMits(mit, {2}) /\ ok' = TRUE
+  /\ Record([Ev("new2", 2) EXCEPT !.i = m])
+(* v = v.AppendVector(w) with w = vector 2 in whatever state its history left it (stored zeros, index keys  *)
+(* without entry): APPEND iterates w (skip() purges w's null entries) and takes over w's non-null scalars.  *)
+(* w is dropped afterwards (whether the result shares scalars with it is not promised).                     *)
+AppendObj ==
+  /\ "appendo" \in Ops /\ MaxObj = 2 /\ Alive(1) /\ Alive(2) /\ n[1] + n[2] <= MaxN
+  /\ ~HasNil(vals[1]) /\ ~HasNil(vals[2])
+  /\ LET m  == n[1]
+         wk == FullWalk(vals[2], index[2])
+         K  == {m + k : k \in KeysOfSeq(wk.seq)}
+         nv == TLCEval([k \in DOMAIN vals[1] \cup K |-> IF k \in K THEN wk.vals[k - m] ELSE vals[1][k]])
+     IN /\ n' = [o \in Objs |-> IF o = 1 THEN m + n[2] ELSE -1]
+        /\ content' = [o \in Objs |-> IF o = 1 THEN CAppend(content[1], m, SeqOf(content[2], n[2])) ELSE <<>>]
+        /\ must' = {} /\ taint' = [o \in Objs |-> {}]
+        /\ vals' = [o \in Objs |-> IF o = 1 THEN nv ELSE <<>>]
+        /\ index' = [o \in Objs |-> IF o = 1 THEN index[1] \cup K ELSE {}]
+        /\ sh' = {}
+  /\ cit' = KillIters(cit, {1, 2}) /\ mit' = KillMits(mit, {1, 2}) /\ ok' = TRUE
+  /\ Record(Ev("appendo", 1))
+
 (* a complete loop over v.JointIterator(w) *)
 JointWalk(o, wseq) ==
   /\ "jwalk" \in Ops /\ Alive(o)
@@ -382,6 +435,10 @@ Next ==
        \/ WalkAll(o)
        \/ (Alive(o) /\ \E w \in WSeqs(n[o]) : JointWalk(o, w))
   \/ \E j \in Iters : IterNext(j)
+  \/ (Cols > 0 /\ \E o \in Objs : \E r0, r1 \in 0..MaxN, c0, c1 \in 0..Cols, fi \in 0..(MaxN - 1), fj \in 0..(Cols - 1) :
+                                     ViewWalk(o, r0, r1, c0, c1, fi, fj))
+  \/ \E m \in 0..MaxN : New2(m)
+  \/ AppendObj
   \/ \E a, b \in 0..MaxN : Slice1(a, b) \/ Slice2(a, b)
   \/ Promote
   \/ \E x \in Val : AppendScalar(x)
@@ -417,7 +474,7 @@ ResultOK == ok
 
 (* ---------------------------------------------------- action properties *)
 LastEv == hist'[Len(hist')]
-Replacing == {"appends", "appendv", "slice", "promote"}
+Replacing == {"appends", "appendv", "appendo", "new2", "slice", "promote"}
 (* the length changes only through Append (Slice creates a new vector) *)
 DimFrame == [][\A o \in Objs : n'[o] = n[o] \/ LastEv.a \in Replacing]_vars
 =============================================================================
